@@ -253,36 +253,42 @@ structure LoopSt where
                                          -- Matches (skipped), 2 = passed over without either (may differ, no descent possible / both descended)
   fuelOut : Bool := false
 
-/-- One iteration of the `do … while` body. -/
-def loopBody (al : AliasTable) (fixed : Bool) (diffs : List TSRange) (treeFuel : Nat) (s : LoopSt) : LoopSt :=
+/-- First half of the `do … while` body: compare, apply the included-range override, and move/descend:
+`(old iterator, new iterator, is_changed, next_position, comparison)`. -/
+def midStep (al : AliasTable) (fixed : Bool) (diffs : List TSRange) (treeFuel : Nat) (s : LoopSt) :
+    Iter × Iter × Bool × Length × Cmp :=
   let cmp0 := iterCompare al s.o s.n
   let span := if fixed then s.o.comparedSpan al s.position.bytes s.o.endPosition.bytes
               else (s.position.bytes, s.o.endPosition.bytes)
   let startIdx := if fixed && span.1 < s.position.bytes then 0 else s.diffIdx
   let cmp := if cmp0 == .matches && intersects diffs startIdx span.1 span.2
              then Cmp.mayDiffer else cmp0
-  let (o, n, isChanged, nextPosition) :=
-    match cmp with
-    | .matches => (s.o, s.n, false, s.o.endPosition)
-    | .mayDiffer =>
-      let (o, od) := s.o.descend al treeFuel s.position.bytes
-      if od then
-        let (n, nd) := s.n.descend al treeFuel s.position.bytes
-        if !nd then (o, n, true, o.endPosition) else (o, n, false, s.nextPosition)
-      else
-        let (n, nd) := s.n.descend al treeFuel s.position.bytes
-        if nd then (o, n, true, n.endPosition)
-        else (o, n, false, length_min o.endPosition n.endPosition)
-    | .differs => (s.o, s.n, true, length_min s.o.endPosition s.n.endPosition)
-  let (o, f1) := catchUp al treeFuel (2 * treeFuel + 2) o nextPosition.bytes
-  let (n, f2) := catchUp al treeFuel (2 * treeFuel + 2) n nextPosition.bytes
-  let o := ascendTo al (o.stack.length + 1) o n.visibleDepth
-  let n := ascendTo al (n.stack.length + 1) n o.visibleDepth
-  let label := if isChanged then 0 else if cmp == .matches then 1 else 2
+  match cmp with
+  | .matches => (s.o, s.n, false, s.o.endPosition, cmp)
+  | .mayDiffer =>
+    let od := s.o.descend al treeFuel s.position.bytes
+    if od.2 then
+      let nd := s.n.descend al treeFuel s.position.bytes
+      if !nd.2 then (od.1, nd.1, true, od.1.endPosition, cmp) else (od.1, nd.1, false, s.nextPosition, cmp)
+    else
+      let nd := s.n.descend al treeFuel s.position.bytes
+      if nd.2 then (od.1, nd.1, true, nd.1.endPosition, cmp)
+      else (od.1, nd.1, false, length_min od.1.endPosition nd.1.endPosition, cmp)
+  | .differs => (s.o, s.n, true, length_min s.o.endPosition s.n.endPosition, cmp)
+
+/-- One iteration of the `do … while` body. -/
+def loopBody (al : AliasTable) (fixed : Bool) (diffs : List TSRange) (treeFuel : Nat) (s : LoopSt) : LoopSt :=
+  let m := midStep al fixed diffs treeFuel s
+  let nextPosition := m.2.2.2.1
+  let cu1 := catchUp al treeFuel (2 * treeFuel + 2) m.1 nextPosition.bytes
+  let cu2 := catchUp al treeFuel (2 * treeFuel + 2) m.2.1 nextPosition.bytes
+  let o := ascendTo al (cu1.1.stack.length + 1) cu1.1 cu2.1.visibleDepth
+  let n := ascendTo al (cu2.1.stack.length + 1) cu2.1 o.visibleDepth
+  let label := if m.2.2.1 then 0 else if m.2.2.2.2 == .matches then 1 else 2
   let spans := (s.position, nextPosition, label) :: s.spans
   let diffIdx := skipDiffs diffs.toArray s.diffIdx nextPosition.bytes (diffs.length + 1)
   { o := o, n := n, position := nextPosition, nextPosition := nextPosition, diffIdx := diffIdx, spans := spans,
-    fuelOut := s.fuelOut || f1 || f2 }
+    fuelOut := s.fuelOut || cu1.2 || cu2.2 }
 
 def mainLoop (al : AliasTable) (fixed : Bool) (diffs : List TSRange) (treeFuel : Nat) : Nat → LoopSt → LoopSt
   | 0, s => { s with fuelOut := true }
